@@ -56,8 +56,15 @@ class Int:
 class Counter_:
     """Counter over element symbols: keys ⊆ universe, counts ≥ 1"""
 
-    def __init__(self, uni):
+    _next = [0]
+
+    def __init__(self, uni, present=(), cid=None):
         self.uni = list(uni)
+        self.present = set(present)       # symbols known to be there on this path
+        if cid is None:
+            Counter_._next[0] += 1
+            cid = Counter_._next[0]
+        self.cid = cid                    # survives refinement: lists derived from this counter are refined with it
 
 
 class SortedItems:
@@ -120,6 +127,29 @@ class Fixed:
 
     def __init__(self, items=()):
         self.items = list(items)
+
+
+class SymList:
+    """a list of element symbols in a known order; a slot that is not `sure` is there iff the molecule has that element"""
+
+    def __init__(self, slots, ordered=True, cids=()):
+        self.slots = list(slots)          # [(symbol, sure)]
+        self.ordered = ordered            # False: the keys of a Counter as they come (order unknown until sorted)
+        self.cids = set(cids)             # the counters whose keys the unsure slots depend on
+
+
+class SymPieces:
+    """the texts made from the slots of a SymList, in order"""
+
+    def __init__(self, pieces):
+        self.pieces = list(pieces)        # [(Str, sure)]
+
+
+class AltVal:
+    """one of several values (a helper that returns different things on different paths)"""
+
+    def __init__(self, vals):
+        self.vals = list(vals)
 
 
 class RecMap:
@@ -203,6 +233,7 @@ class ShapeInterp:
             raise AnalysisError("shape interpreter: call depth")
         fn = fi.node
         env = {a.arg: v for a, v in zip(fn.args.args, args)}
+        self._bind_defaults(fi, env)
         outs: list[Str] = []
         self.depth += 1
         try:
@@ -215,6 +246,34 @@ class ShapeInterp:
         for o in outs:
             res = o if res is None else join_str(res, o)
         return res
+
+    def _bind_defaults(self, fi, env):
+        a = fi.node.args
+        names = [x.arg for x in a.args]
+        for nm, d in zip(names[len(names) - len(a.defaults):], a.defaults):
+            if nm not in env:
+                try:
+                    env[nm] = self.ev(fi, d, {})
+                except AnalysisError:
+                    pass
+
+    def run_value(self, fi: FuncInfo, args):
+        """like run, for a helper that returns a list of symbols: the values of its return statements"""
+        if self.depth > 8:
+            raise AnalysisError("shape interpreter: call depth")
+        fn = fi.node
+        env = {a.arg: v for a, v in zip(fn.args.args, args)}
+        outs: list = []
+        self.depth += 1
+        self._raw_returns = getattr(self, "_raw_returns", 0) + 1
+        try:
+            self.block(fi, fn.body, [env], outs, None)
+        finally:
+            self.depth -= 1
+            self._raw_returns -= 1
+        if not outs:
+            raise AnalysisError(f"shape interpreter: {fi.qualname} returns nothing")
+        return outs[0] if len(outs) == 1 else AltVal(outs)
 
     def block(self, fi, body, states, outs, loop):
         for st in body:
@@ -249,6 +308,14 @@ class ShapeInterp:
                             res_.append(n_ if n_ != () else a_)
                     env = dict(env)
                     env[c.func.value.id] = RecMap(res_)
+                    return [env]
+            if isinstance(c, ast.Call) and isinstance(c.func, ast.Attribute) and c.func.attr == "append" and isinstance(c.func.value, ast.Name) and loop is None \
+                    and isinstance(env.get(c.func.value.id), Coll) and env[c.func.value.id].kind == "list" and not env[c.func.value.id].elems and c.args:
+                # outside any loop an empty list that gets an element is an exact list
+                v_ = self.ev(fi, c.args[0], env)
+                if isinstance(v_, Str):
+                    env = dict(env)
+                    env[c.func.value.id] = Fixed([v_])
                     return [env]
             if isinstance(c, ast.Call) and isinstance(c.func, ast.Attribute) and c.func.attr in ("append", "add") and isinstance(c.func.value, ast.Name) \
                     and isinstance(env.get(c.func.value.id), Coll) and c.args:
@@ -310,7 +377,18 @@ class ShapeInterp:
             env[st.target.id] = self.tostr(self.ev(fi, st.target, env), fi, st) + self.tostr(self.ev(fi, st.value, env), fi, st)
             return [env]
         if isinstance(st, ast.Return):
-            outs.append(self.tostr(self.ev(fi, st.value, env), fi, st))
+            v_ = self.ev(fi, st.value, env)
+            if getattr(self, "_raw_returns", 0) and isinstance(v_, (SymList, Fixed)) and self.depth >= 1 and not isinstance(v_, Str):
+                outs.append(self._as_symlist(v_) or v_)
+                return []
+            if getattr(self, "_raw_returns", 0) and isinstance(v_, Pair):
+                outs.append(v_)
+                return []
+            if isinstance(v_, AltVal):
+                for x_ in v_.vals:
+                    outs.append(self.tostr(x_, fi, st))
+                return []
+            outs.append(self.tostr(v_, fi, st))
             return []
         if isinstance(st, ast.Continue):
             if loop is None:
@@ -462,6 +540,57 @@ class ShapeInterp:
         raise AnalysisError(f"shape interpreter: loop over {type(it).__name__} at {fi.loc(st)}")
 
     @staticmethod
+    def _as_symlist(v):
+        if isinstance(v, SymList):
+            return v
+        if isinstance(v, Fixed) and all(isinstance(x, Str) and len(x.p) == 1 and x.p[0][0] == "lit" for x in v.items):
+            return SymList([(x.p[0][1], True) for x in v.items])
+        if isinstance(v, Coll) and v.kind == "list" and not v.elems:
+            return SymList([])
+        if isinstance(v, Counter_):
+            return SymList([(s_, s_ in v.present) for s_ in v.uni], ordered=False, cids={v.cid})
+        return None
+
+    def _comp_over(self, fi, e, g, it, env):
+        """a comprehension over a list of element symbols: filtered by membership tests, mapped to the symbol itself or to text"""
+        sl = self._as_symlist(it)
+        if sl is None:
+            raise AnalysisError(f"shape interpreter: comprehension over {type(it).__name__} at {fi.loc(e)}")
+        if not isinstance(g.target, ast.Name):
+            raise AnalysisError(f"shape interpreter: comprehension target at {fi.loc(e)}")
+        tv = g.target.id
+        slots = list(sl.slots)
+        for c in g.ifs:
+            if not (isinstance(c, ast.Compare) and len(c.ops) == 1 and isinstance(c.ops[0], (ast.In, ast.NotIn)) and isinstance(c.left, ast.Name) and c.left.id == tv):
+                raise AnalysisError(f"shape interpreter: filter `{short(c)}` at {fi.loc(c)}")
+            other = self.ev(fi, c.comparators[0], env)
+            pos = isinstance(c.ops[0], ast.In)
+            if isinstance(other, Counter_):
+                sl.cids = set(sl.cids) | {other.cid}
+                # present in the molecule: sure if known present, dropped if outside the universe, else it depends
+                if pos:
+                    slots = [(s_, sure and s_ in other.present) for s_, sure in slots if s_ in other.uni]
+                else:
+                    slots = [(s_, False) for s_, sure in slots if s_ not in other.present]
+                continue
+            osl = self._as_symlist(other)
+            if osl is None:
+                raise AnalysisError(f"shape interpreter: membership in {type(other).__name__} at {fi.loc(c)}")
+            names = {s_ for s_, _ in osl.slots}
+            # a slot of the other list is there exactly when the molecule has the element: the same condition as here
+            slots = [(s_, sure) for s_, sure in slots if (s_ in names) == pos]
+        if isinstance(e.elt, ast.Name) and e.elt.id == tv:
+            return SymList(slots, ordered=sl.ordered, cids=set(sl.cids) | set(getattr(self, "_cids_seen", set())))
+        if not sl.ordered:
+            raise AnalysisError(f"shape interpreter: text is made from the keys of a Counter in the order they come at {fi.loc(e)}")
+        pieces = []
+        for s_, sure in slots:
+            cenv = dict(env)
+            cenv[tv] = lit(s_)
+            pieces.append((self.tostr(self.ev(fi, e.elt, cenv), fi, e), sure))
+        return SymPieces(pieces)
+
+    @staticmethod
     def _fills_recmap(loop, name) -> bool:
         for n in ast.walk(loop):
             if isinstance(n, ast.Call) and isinstance(n.func, ast.Attribute) and n.func.attr == "setdefault" and isinstance(n.func.value, ast.Name) and n.func.value.id == name:
@@ -470,6 +599,30 @@ class ShapeInterp:
 
     def refine(self, fi, test, env):
         """(truth, env') for the feasible branches"""
+        if isinstance(test, ast.NamedExpr) and isinstance(test.target, ast.Name):
+            env2 = dict(env)
+            env2[test.target.id] = self.ev(fi, test.value, env)
+            return self.refine(fi, ast.copy_location(ast.Name(test.target.id, ast.Load()), test), env2)
+        if isinstance(test, ast.Name) and isinstance(env.get(test.id), bool):
+            return [(env[test.id], env)]
+        if isinstance(test, ast.Name) and isinstance(env.get(test.id), AltVal) and all(isinstance(v_, (Fixed, SymList)) for v_ in env[test.id].vals):
+            return [(bool(v_.items if isinstance(v_, Fixed) else v_.slots), {**env, test.id: v_}) for v_ in env[test.id].vals]
+        if isinstance(test, ast.Constant) and isinstance(test.value, bool):
+            return [(test.value, env)]
+        if isinstance(test, ast.BoolOp):
+            # left to right, later operands only on the paths that reach them
+            is_and = isinstance(test.op, ast.And)
+            live, done = [env], []
+            for v in test.values:
+                nxt = []
+                for e_ in live:
+                    for truth, e2 in self.refine(fi, v, e_):
+                        if truth == is_and:
+                            nxt.append(e2)
+                        else:
+                            done.append((truth, e2))
+                live = nxt
+            return done + [(is_and, e_) for e_ in live]
         if isinstance(test, ast.Name) and test.id in env:
             v = env[test.id]
             if isinstance(v, Int):
@@ -514,6 +667,33 @@ class ShapeInterp:
                         res.append((a, {**env, test.left.id: Int(c)}))
                     res.append((b, dict(env)))
                     return res
+        if isinstance(test, ast.Compare) and len(test.ops) == 1 and isinstance(test.left, ast.NamedExpr) and isinstance(test.left.target, ast.Name):
+            env2 = dict(env)
+            env2[test.left.target.id] = self.ev(fi, test.left.value, env)
+            t2 = ast.Compare(ast.Name(test.left.target.id, ast.Load()), test.ops, test.comparators)
+            ast.copy_location(t2, test)
+            ast.fix_missing_locations(t2)
+            return self.refine(fi, t2, env2)
+        if isinstance(test, ast.Compare) and len(test.ops) == 1 and isinstance(test.ops[0], (ast.In, ast.NotIn)) and isinstance(test.comparators[0], ast.Name) \
+                and isinstance(env.get(test.comparators[0].id), Counter_):
+            cnt = env[test.comparators[0].id]
+            l_ = self.ev(fi, test.left, env)
+            sym = l_.p[0][1] if isinstance(l_, Str) and len(l_.p) == 1 and l_.p[0][0] == "lit" else None
+            if sym is not None:
+                pos = isinstance(test.ops[0], ast.In)
+                out = []
+
+                def derived(e_, there):
+                    e2 = dict(e_)
+                    for k_, v_ in e_.items():
+                        if isinstance(v_, SymList) and cnt.cid in v_.cids:
+                            e2[k_] = SymList([(s_, True if (s_ == sym and there) else sure) for s_, sure in v_.slots if not (s_ == sym and not there)], v_.ordered, v_.cids)
+                    return e2
+                if sym in cnt.uni:
+                    out.append((pos, derived({**env, test.comparators[0].id: Counter_(cnt.uni, cnt.present | {sym}, cnt.cid)}, True)))
+                if sym not in cnt.present:
+                    out.append((not pos, derived({**env, test.comparators[0].id: Counter_([x for x in cnt.uni if x != sym], cnt.present, cnt.cid)}, False)))
+                return out
         if isinstance(test, ast.Compare) and len(test.ops) == 1 and isinstance(test.ops[0], (ast.In, ast.NotIn)):
             return [(True, env), (False, env)]
         if isinstance(test, ast.BoolOp):
@@ -552,8 +732,16 @@ class ShapeInterp:
             if isinstance(v, int):
                 return Int(v)
             return Opaque("const")
+        if isinstance(e, ast.BinOp) and isinstance(e.op, ast.Add):
+            a_, b_ = self.ev(fi, e.left, env), self.ev(fi, e.right, env)
+            sa, sb = self._as_symlist(a_), self._as_symlist(b_)
+            if sa is not None and sb is not None and (isinstance(a_, SymList) or isinstance(b_, SymList)) and not isinstance(a_, Counter_) and not isinstance(b_, Counter_):
+                return SymList(sa.slots + sb.slots, ordered=sa.ordered and sb.ordered, cids=sa.cids | sb.cids)
         if isinstance(e, ast.List) and not e.elts:
             return Coll("list")
+        if isinstance(e, ast.Tuple) and len(e.elts) == 2 and all(isinstance(x, ast.Call) and isinstance(x.func, ast.Name) and len(x.args) == 1 and not x.keywords for x in e.elts) \
+                and [x.func.id for x in e.elts] == ["min", "max"] and norm(e.elts[0].args[0]) == norm(e.elts[1].args[0]):
+            return Pair(*[self.ev(fi, x, env) for x in e.elts], asc=True)     # the two ends of an edge, smaller first
         if isinstance(e, (ast.List, ast.Tuple)) and e.elts and not any(isinstance(x, ast.Starred) for x in e.elts):
             vals = [self.ev(fi, x, env) for x in e.elts]
             if all(isinstance(v, Str) for v in vals):
@@ -590,6 +778,16 @@ class ShapeInterp:
                         raise AnalysisError(f"shape interpreter: format spec at {fi.loc(e)}")
                     r = r + self.tostr(self.ev(fi, p.value, env), fi, e)
             return r
+        if isinstance(e, ast.IfExp) and isinstance(e.test, ast.Compare) and len(e.test.ops) == 1 and isinstance(e.test.ops[0], (ast.Lt, ast.LtE, ast.Gt, ast.GtE)) \
+                and isinstance(e.test.left, ast.Name) and isinstance(e.test.comparators[0], ast.Name) and isinstance(e.body, ast.Tuple) and isinstance(e.orelse, ast.Tuple) \
+                and len(e.body.elts) == 2 and len(e.orelse.elts) == 2 and all(isinstance(x, ast.Name) for x in e.body.elts + e.orelse.elts):
+            l_, r_ = e.test.left.id, e.test.comparators[0].id
+            b_, o_ = [x.id for x in e.body.elts], [x.id for x in e.orelse.elts]
+            lt = isinstance(e.test.ops[0], (ast.Lt, ast.LtE))
+            asc = (b_ == [l_, r_] and o_ == [r_, l_]) if lt else (b_ == [r_, l_] and o_ == [l_, r_])
+            if asc and isinstance(env.get(l_), Int) and isinstance(env.get(r_), Int):
+                lo = None if env[l_].lo is None or env[r_].lo is None else min(env[l_].lo, env[r_].lo)
+                return Pair(Int(lo), Int(lo), asc=True)           # (smaller, larger) of two labels
         if isinstance(e, ast.IfExp):
             r = None
             for truth, e2 in self.refine(fi, e.test, env):
@@ -614,6 +812,8 @@ class ShapeInterp:
             k = self.ev(fi, e.slice, env)
             if isinstance(b, Pair) and isinstance(k, Int) and k.lo is not None and -len(b.items) <= k.lo < len(b.items):
                 return b.items[k.lo]
+            if isinstance(b, Counter_):
+                return Int(1)
             if isinstance(b, ConstMap):
                 key = k[1] if isinstance(k, tuple) and k[0] == "key" else None
                 if key is None or key not in b.d:
@@ -632,6 +832,11 @@ class ShapeInterp:
                 for k in it.d:
                     items.append(self.tostr(self.ev(fi, e.elt, self.bind(g.target, ("key", k), env)), fi, e))
                 return SubSeq(items) if g.ifs else SubSeq(items, True)
+            src_sl = self._as_symlist(it) if isinstance(it, (SymList, Fixed, Counter_)) else None
+            if isinstance(it, AltVal):
+                return AltVal([self.ev(fi, e, {**env, "__alt__": v_}) if False else self._comp_over(fi, e, g, v_, env) for v_ in it.vals])
+            if src_sl is not None:
+                return self._comp_over(fi, e, g, it, env)
             if isinstance(it, tuple) and it and it[0] == "recitems":
                 lists = []
                 for rec in it[1]:
@@ -674,7 +879,26 @@ class ShapeInterp:
             if isinstance(it, SymSeq):
                 if g.ifs:
                     self.notes.append(f"filter in comprehension at {fi.loc(e)} (shape unaffected: any length)")
-                el = self.ev(fi, e.elt, self.bind(g.target, it.elem, env))
+                envs_ = [self.bind(g.target, it.elem, env)]
+                if any(isinstance(x, ast.NamedExpr) for c in g.ifs for x in ast.walk(c)):
+                    # a filter that also binds a name (walrus): the element is built on the paths where it holds
+                    for c in g.ifs:
+                        envs_ = [e2 for e_ in envs_ for truth, e2 in self.refine(fi, c, e_) if truth]
+                    if not envs_:
+                        return SymSeq(Str(), asc=False, what=it.what)
+                if len(envs_) > 1:
+                    els_ = []
+                    for e_ in envs_:
+                        x_ = self.ev(fi, e.elt, e_)
+                        if not isinstance(x_, Str):
+                            raise AnalysisError(f"shape interpreter: filtered comprehension with non-text elements at {fi.loc(e)}")
+                        if x_ not in els_:
+                            els_.append(x_)
+                    el = els_[0] if len(els_) == 1 else Str([("alt", els_)])
+                    out = SymSeq(el, asc=False, what=it.what)
+                    out.src = it
+                    return out
+                el = self.ev(fi, e.elt, envs_[0])
                 # a comprehension keeps the order; it keeps *sortedness* only when it formats the elements (strings built from an ascending sequence)
                 out = SymSeq(el, asc=False, what=it.what)
                 if isinstance(el, Str):
@@ -686,6 +910,9 @@ class ShapeInterp:
         if isinstance(e, (ast.Compare, ast.BoolOp, ast.UnaryOp)):
             return Opaque("bool")
         if isinstance(e, ast.Tuple):
+            if len(e.elts) == 2 and all(isinstance(x, ast.Call) and isinstance(x.func, ast.Name) and len(x.args) == 1 and not x.keywords for x in e.elts) \
+                    and [x.func.id for x in e.elts] == ["min", "max"] and norm(e.elts[0].args[0]) == norm(e.elts[1].args[0]):
+                return Pair(*[self.ev(fi, x, env) for x in e.elts], asc=True)     # the two ends of an edge, smaller first
             return Pair(*[self.ev(fi, x, env) for x in e.elts])
         if isinstance(e, ast.Attribute):
             b = self.ev(fi, e.value, env)
@@ -705,6 +932,8 @@ class ShapeInterp:
                 return self.run(callee, args)
             if "Graph" in ret:
                 return Graph()
+            if ret in ("list", "tuple"):
+                return self.run_value(callee, args)
             raise AnalysisError(f"shape interpreter: call to {callee.qualname} (returns {ret or '?'}) at {fi.loc(e)}")
         if r and r[0] == "ext":
             q = r[1]
@@ -727,6 +956,12 @@ class ShapeInterp:
                     if isinstance(a, Pair):
                         return Pair(*a.items, asc=False)
                 a = args[0]
+                if isinstance(a, Counter_) and not e.keywords:
+                    return SymList([(s_, s_ in a.present) for s_ in sorted(a.uni)], cids={a.cid})
+                if isinstance(a, (SymPieces,)):
+                    raise AnalysisError(f"shape interpreter: sorted(texts) at {fi.loc(e)}")
+                if isinstance(a, SymList) and not e.keywords:
+                    return SymList(sorted(a.slots), ordered=True, cids=a.cids)
                 if isinstance(a, UnsortedItems):
                     return SortedItems(a.uni)
                 if isinstance(a, Coll):
@@ -758,6 +993,9 @@ class ShapeInterp:
                 return self.tostr(args[0], fi, e)
             if f.id == "len":
                 return Int(0)
+            if f.id in ("min", "max") and len(args) == 1 and isinstance(args[0], Pair) and all(isinstance(x_, Int) for x_ in args[0].items):
+                los = [x_.lo for x_ in args[0].items]
+                return Int(None if any(l_ is None for l_ in los) else (min(los) if f.id == "min" else max(los)))
             raise AnalysisError(f"shape interpreter: builtin {f.id} at {fi.loc(e)}")
         if isinstance(f, ast.Attribute):
             recv = self.ev(fi, f.value, env)
@@ -848,6 +1086,25 @@ class ShapeInterp:
                     for i_, it_ in enumerate(a.items):
                         out_ = out_ + (recv if i_ else Str()) + it_
                     return out_
+                if isinstance(a, AltVal):
+                    alts_ = []
+                    for v_ in a.vals:
+                        if not isinstance(v_, SymPieces):
+                            raise AnalysisError(f"shape interpreter: join over {type(v_).__name__} at {fi.loc(e)}")
+                        r_ = Str()
+                        for i_, (pc_, sure) in enumerate(v_.pieces):
+                            one = (recv if recv.p else Str()) + pc_ if False else pc_
+                            r_ = r_ + (one if sure else Str([("opt", one)]))
+                        if r_ not in alts_:
+                            alts_.append(r_)
+                    return alts_[0] if len(alts_) == 1 else Str([("alt", alts_)])
+                if isinstance(a, SymPieces):
+                    if recv.p:
+                        raise AnalysisError(f"shape interpreter: join of optional pieces with a separator at {fi.loc(e)}")
+                    r_ = Str()
+                    for pc_, sure in a.pieces:
+                        r_ = r_ + (pc_ if sure else Str([("opt", pc_)]))
+                    return r_
                 if isinstance(a, FixedAlt):
                     alts_ = []
                     for items_ in a.lists:
